@@ -16,7 +16,8 @@ for d in sorted(os.listdir(os.path.join(V, "seeded"))):
     if subprocess.run(["git", "-C", "/repo", "apply", pd]).returncode != 0:
         print("%-45s patch does not apply" % d); continue
     try:
-        r = subprocess.run([os.path.join(V, "check"), prop, "--tier", "quick"], capture_output=True, text=True, cwd=V, timeout=3000)
+        r = subprocess.run([os.path.join(V, "check"), prop, "--tier", "quick"], capture_output=True, text=True, cwd=V, timeout=3000,
+                           env=dict(os.environ, VERIF_EVIDENCE_DIR="/var/tmp/verif-seeded-evidence"))
         nviol = sum(1 for l in r.stdout.splitlines() if l.startswith("VIOLATION"))
         last = r.stdout.strip().splitlines()[-1] if r.stdout.strip() else ""
         print("%-45s exit=%d  VIOLATION lines=%d  %s" % (d, r.returncode, nviol, last[:110]), flush=True)
